@@ -860,12 +860,13 @@ where
             non_leaky + slack(next_symbol, self.model.quantizer.min_symbol_inclusive)
         };
 
-        let probability = unsafe {
-            // SAFETY: probabilities of
-            right_sided_cumulative
-                .wrapping_sub(&self.left_sided_cumulative)
-                .into_nonzero_unchecked()
-        };
+        // The difference is nonzero for any valid (i.e., nondecreasing) CDF due to the
+        // leakiness, but `Distribution` is a safe trait, so we must not rely on that for
+        // memory safety (same check and message as in `left_cumulative_and_probability`).
+        let probability = right_sided_cumulative
+            .wrapping_sub(&self.left_sided_cumulative)
+            .into_nonzero()
+            .expect("Invalid underlying continuous probability distribution.");
 
         let left_sided_cumulative = self.left_sided_cumulative;
         self.left_sided_cumulative = right_sided_cumulative;
